@@ -40,3 +40,9 @@ func VerifScanRegExp(text string) (tok T, end int, current int, codePoint rune) 
 
 // VerifIsLexerPanic reports whether a recovered value is the typed lexer panic.
 func VerifIsLexerPanic(r interface{}) bool { _, ok := r.(LexerPanic); return ok }
+
+// VerifScanForPragmaArg forwards to scanForPragmaArg (kind 0 = no space first, 1 = skip space first).
+func VerifScanForPragmaArg(kind uint8, start int, pragma string, text string) (string, int32, int32, bool) {
+	span, ok := scanForPragmaArg(pragmaArg(kind), start, pragma, text)
+	return span.Text, span.Range.Loc.Start, span.Range.Len, ok
+}
